@@ -474,10 +474,12 @@ func (enc Encryptor) encryptZeroSkFromC1QP(sk *SecretKey, ct Element[ringqp.Poly
 	}
 
 	ringQP.NTT(c0, c0)
-	// ct[1] is assumed to be sampled in of the Montgomery domain,
-	// thus -as will also be in the Montgomery domain (s is by default), therefore 'e'
-	// must be switched to the Montgomery domain.
-	ringQP.MForm(c0, c0)
+	// ct[1] is uniform, hence also uniform when read as being in the Montgomery domain:
+	// for a target flagged IsMontgomery, -as is then in the Montgomery domain as well
+	// (s is by default) and only 'e' has to be switched to it.
+	if ct.IsMontgomery {
+		ringQP.MForm(c0, c0)
+	}
 
 	// (-a*sk + e, a)
 	ringQP.MulCoeffsMontgomeryThenSub(c1, sk.Value, c0)
